@@ -3600,7 +3600,8 @@ ConnStateData::finishDechunkingRequest(bool withSuccess)
         Must(!bodyPipe); // we rely on it being nil after we are done with body
         if (withSuccess) {
             Must(myPipe->bodySizeKnown());
-            Http::StreamPointer context = pipeline.front();
+            // the body we were reading belongs to the most recently parsed request
+            Http::StreamPointer context = pipeline.back();
             if (context != nullptr && context->http && context->http->request)
                 context->http->request->setContentLength(myPipe->bodySize());
         }
